@@ -2,7 +2,13 @@ package main
 
 import "fmt"
 
+var dumpers = map[string]func(c *Ctx){}
+
 func dumpEngine(c *Ctx, what string) {
+	if f, ok := dumpers[what]; ok {
+		f(c)
+		return
+	}
 	switch what {
 	case "extreg":
 		n := 0
@@ -16,5 +22,19 @@ func dumpEngine(c *Ctx, what string) {
 				r.Key(), r.MinArgs, r.MaxArgs, r.ArgTypes, r.DontCache, r.ClientData, r.Short, cb, r.Guards, r.Unknown, ssaFuncName(r.In), c.Pos(r.Site.Pos()))
 		}
 		fmt.Printf("%d sites, %d names\n", len(c.ExtReg()), n)
+	}
+}
+
+func init() {
+	dumpers["inhab"] = func(c *Ctx) {
+		ih := c.Inhabitants()
+		for b, forms := range ih.Produced {
+			for f, sites := range forms {
+				fmt.Printf("produced %-28s %-3s x%d consumed=%v\n", b, f, len(sites), ih.Consumed[b])
+			}
+		}
+		for _, k := range ih.Contradictions() {
+			fmt.Printf("CONTRADICTION %s in %s at %s: %s\n", k.Base, ssaFuncName(k.Site.Fn), c.Pos(instrPos(k.Site.At)), k.Why)
+		}
 	}
 }
